@@ -222,82 +222,84 @@ func inferTypesFromCall(sc *scope, fun *node, args []*node) ([]*itype, error) {
 		}
 	}
 
-	var inferTypes func(*itype, *itype) ([]*itype, error)
-	inferTypes = func(param, input *itype) ([]*itype, error) {
+	// Bind each type parameter, by name, to the type of the first argument part it matches.
+	inferred := map[string]*itype{}
+	bind := func(name string, typ *itype) {
+		if inferred[name] == nil {
+			inferred[name] = typ
+		}
+	}
+
+	var inferTypes func(*itype, *itype)
+	inferTypes = func(param, input *itype) {
+		if input == nil {
+			return
+		}
 		switch param.cat {
 		case chanT, ptrT, sliceT:
-			return inferTypes(param.val, input.val)
+			inferTypes(param.val, input.val)
 
 		case mapT:
-			k, err := inferTypes(param.key, input.key)
-			if err != nil {
-				return nil, err
-			}
-			v, err := inferTypes(param.val, input.val)
-			if err != nil {
-				return nil, err
-			}
-			return append(k, v...), nil
+			inferTypes(param.key, input.key)
+			inferTypes(param.val, input.val)
 
 		case structT:
-			lt := []*itype{}
 			for i, f := range param.field {
-				nl, err := inferTypes(f.typ, input.field[i].typ)
-				if err != nil {
-					return nil, err
+				if i >= len(input.field) {
+					break
 				}
-				lt = append(lt, nl...)
+				inferTypes(f.typ, input.field[i].typ)
 			}
-			return lt, nil
 
 		case funcT:
-			lt := []*itype{}
 			for i, t := range param.arg {
 				if i >= len(input.arg) {
 					break
 				}
-				nl, err := inferTypes(t, input.arg[i])
-				if err != nil {
-					return nil, err
-				}
-				lt = append(lt, nl...)
+				inferTypes(t, input.arg[i])
 			}
 			for i, t := range param.ret {
 				if i >= len(input.ret) {
 					break
 				}
-				nl, err := inferTypes(t, input.ret[i])
-				if err != nil {
-					return nil, err
-				}
-				lt = append(lt, nl...)
+				inferTypes(t, input.ret[i])
 			}
-			return lt, nil
 
 		case nilT:
 			if paramTypes[param.name] != nil {
-				return []*itype{input}, nil
+				bind(param.name, input)
 			}
 
 		case genericT:
-			return []*itype{input}, nil
+			bind(param.name, input)
 		}
-		return nil, nil
 	}
 
-	types := []*itype{}
-	for i, c := range ftn.child[1].child {
+	i := 0
+	for _, c := range ftn.child[1].child {
 		typ, err := nodeType(fun.interp, sc, c.lastChild())
 		if err != nil {
 			return nil, err
 		}
-		lt, err := inferTypes(typ, args[i].typ)
-		if err != nil {
-			return nil, err
+		// A field may declare several parameters of the same type, each one matching an argument.
+		for j := 0; j < len(c.child)-1 || j == 0; j++ {
+			if i < len(args) {
+				inferTypes(typ, args[i].typ)
+			}
+			i++
 		}
-		types = append(types, lt...)
 	}
 
+	// Return the inferred types in the order of the type parameters declaration.
+	types := []*itype{}
+	for _, c := range ftn.child[0].child {
+		for _, cc := range c.child[:len(c.child)-1] {
+			if inferred[cc.ident] == nil {
+				return types, nil // The missing type is reported at instantiation.
+			}
+			types = append(types, inferred[cc.ident])
+		}
+	}
 	return types, nil
 }
 
